@@ -120,7 +120,7 @@ def run(run):
                         add(e, comp, dict(cfg, case="batch_items"))
     # --- gain statistics on >= 10^6 blocks
     NB = 1000000
-    for (kname, mk, comp, K) in kinds + [("rician", lambda T, K=K: RicianFadingChannel(k_factor=K, coherence_time=T, avg_noise_power=0.0), "RicianFadingChannel", K) for K in ((0.0, 1.0, 10.0, 100.0) if not quick else (0.0, 10.0))]:
+    for (kname, mk, comp, K) in kinds + [("rician", lambda T, K=K: RicianFadingChannel(k_factor=K, coherence_time=T, avg_noise_power=0.0), "RicianFadingChannel", K) for K in ((0.0, 1.0, 10.0, 100.0, 1, 5, 20) if not quick else (0.0, 10.0, 5))]:      # K as float and as Python int (the documented form)
         if kname == "lognormal":
             continue        # unit mean-square gain is stated for Rayleigh and Rician fading only
         y = mk(1)(torch.ones(1000, NB // 1000))
@@ -131,8 +131,8 @@ def run(run):
         if K is not None:
             e["k10"] = int(round(K * 10))
             e["los_ppm"] = int(round(abs(complex(h.mean())) ** 2 * 1e6))
-        add(e, comp, {"fading": kname, "case": "statistics", "K": K})
-        run.case(("stats", kname, K), nontrivial=True)
+        add(e, comp, {"fading": kname, "case": "statistics", "K": K, "K_type": type(K).__name__})
+        run.case(("stats", kname, K, type(K).__name__), nontrivial=True)
     # --- noise stage relative to the faded signal (as C07): supply csi, let the channel draw the noise
     noise_evs = []
     for snr in (0.0, 10.0, 30.0):
